@@ -167,8 +167,8 @@ func init() {
 		LevelNote: "trusts go/types constant evaluation; the token-kind field and the read switch are resolved by role (rune field of Lexer, switch on the rune field of Parser in the read primitive)", DesignRef: "4 EL, REG-tok, REG-eos; 5 C03"})
 
 	claim("C04", PropertySpec{
-		Engines: []EngineSpec{fromPrinters("REC"), printerOnly("IX"), lookupsOrQueryMode("NT")},
-		Clause: "C01's and C02's rules restricted to the code reachable (VTA call graph) from the editor-query printers of package cmd (functions taking the finished Parser by value): graph recursion over the inheritance table is cycle-guarded, and every constant-position index in the printers' own code is guarded or reviewed; plus the code that runs only when a row was requested: at every table-lookup call site (all of them are re-checked here, because the target capture `if LspTargetRow == ErrorRow { … }` follows lookups throughout the strategies) a miss is not dereferenced, in particular not inside a block dominated by the requested-row comparison.",
+		Engines: []EngineSpec{fromPrinters("REC"), printerOnly("IX"), lookupsOrQueryMode("NT"), inPkgs("TA", "parser", "cmd")},
+		Clause: "C01's and C02's rules restricted to the code reachable (VTA call graph) from the editor-query printers of package cmd (functions taking the finished Parser by value): graph recursion over the inheritance table is cycle-guarded, and every constant-position index in the printers' own code is guarded or reviewed; plus the code that runs only when a row was requested: at every table-lookup call site (all of them are re-checked here, because the target capture `if LspTargetRow == ErrorRow { … }` follows lookups throughout the strategies) a miss is not dereferenced, in particular not inside a block dominated by the requested-row comparison; and every type assertion in the parser (where the query target is captured from whatever was evaluated last — a single value or a list of assignment targets) and in the printers is checked.",
 		NotCovered: "which records are printed; index guards in the printers (claimed with IX when built); hangs and crashes of the analysis that precedes the printers are reported under C01/C02",
 	}, propMeta{Technique: "call-graph reachability from the query printers + the REC (guard, monotone visited set) / NT / IX / IV rules on the reachable functions",
 		LevelText: "all functions reachable from the printers are enumerated from the call graph on every run and each rule instance in them is decided.",
